@@ -5,6 +5,7 @@ import (
 	"crypto/sha256"
 	"encoding/hex"
 	"encoding/json"
+	"errors"
 	"fmt"
 	"io"
 	"math/rand/v2"
@@ -14,6 +15,7 @@ import (
 	"strings"
 
 	"github.com/pdfcpu/pdfcpu/pkg/api"
+	"github.com/pdfcpu/pdfcpu/pkg/pdfcpu"
 	"github.com/pdfcpu/pdfcpu/pkg/pdfcpu/model"
 	"github.com/pdfcpu/pdfcpu/pkg/pdfcpu/types"
 	"verif/core"
@@ -45,10 +47,20 @@ type c39Model struct {
 	// by the same bytes); pdfcpu keeps the old entry and stores the new one under a derived key. Both
 	// are accepted (Reconcile); the structural invariants hold either way.
 	Dup []string
+	// Dests name tree, edited through bookmarks: every bookmark's title is a key of the tree (its named
+	// destination). BM is the flat bookmark list as set (nil = no bookmarks); NoBM marks documents that
+	// come with their own destinations/outlines, on which bookmark steps are not generated.
+	BM   []bmEntry
+	NoBM bool
+}
+
+type bmEntry struct {
+	Title string `json:"title"`
+	Page  int    `json:"page"`
 }
 
 func (m *c39Model) Clone() Model {
-	c := &c39Model{Att: map[string]string{}}
+	c := &c39Model{Att: map[string]string{}, NoBM: m.NoBM, BM: append([]bmEntry(nil), m.BM...), Dup: append([]string(nil), m.Dup...)}
 	for k, v := range m.Att {
 		c.Att[k] = v
 	}
@@ -62,6 +74,13 @@ func (m *c39Model) String() string {
 		fmt.Fprintf(&sb, "%q:%s ", k, m.Att[k][:8])
 	}
 	sb.WriteString("}")
+	if !m.NoBM {
+		sb.WriteString(" bm=[")
+		for _, b := range m.BM {
+			fmt.Fprintf(&sb, "%q@%d ", b.Title, b.Page)
+		}
+		sb.WriteString("]")
+	}
 	return sb.String()
 }
 
@@ -69,6 +88,20 @@ func (m *c39Model) Apply(s Step) bool {
 	var a c35Args
 	json.Unmarshal(s.Args, &a)
 	switch s.Op {
+	case "bm-set":
+		var bb []bmEntry
+		json.Unmarshal(s.Args, &struct{ BM *[]bmEntry }{&bb})
+		if len(bb) == 0 {
+			return false
+		}
+		m.BM = bb
+		return true
+	case "bm-remove":
+		if len(m.BM) == 0 {
+			return false
+		}
+		m.BM = nil
+		return true
 	case "att-add":
 		if len(a.List) == 0 {
 			return false
@@ -163,6 +196,16 @@ func (c39Store) observe(path string) (*c39Model, error) {
 	if err != nil {
 		return nil, err
 	}
+	bms, err := api.Bookmarks(bytes.NewReader(b), dsConf())
+	if err != nil && !errors.Is(err, pdfcpu.ErrNoBookmarks) && !strings.Contains(err.Error(), "no outlines") && !strings.Contains(err.Error(), "no bookmarks") {
+		return nil, fmt.Errorf("list bookmarks: %w", err)
+	}
+	for _, bm := range bms {
+		m.BM = append(m.BM, bmEntry{Title: bm.Title, Page: bm.PageFrom})
+		if len(bm.Kids) > 0 {
+			return nil, fmt.Errorf("bookmark %q has kids, none were set", bm.Title)
+		}
+	}
 	listed, err := api.Attachments(bytes.NewReader(b), dsConf())
 	if err != nil {
 		return nil, fmt.Errorf("list attachments: %w", err)
@@ -196,6 +239,10 @@ func (c39Store) Valid(mm Model, s Step) bool {
 	var a c35Args
 	json.Unmarshal(s.Args, &a)
 	switch s.Op {
+	case "bm-set":
+		return !m.NoBM
+	case "bm-remove":
+		return !m.NoBM && len(m.BM) > 0
 	case "att-add":
 		// a present name may be inserted again, but not together with faults and not a derived name
 		for _, n := range a.List {
@@ -238,6 +285,20 @@ func (s c39Store) Reconcile(mm Model, path string) {
 }
 
 func (s c39Store) NewModel(path string) (Model, error) {
+	m, err := s.newModel(path)
+	if err != nil {
+		return nil, err
+	}
+	cm := m.(*c39Model)
+	// documents that come with destinations or outlines of their own are not edited through bookmarks
+	if t, err := walkTree(path, "Dests"); err != nil || t != nil || len(cm.BM) > 0 {
+		cm.NoBM = true
+		cm.BM = nil
+	}
+	return cm, nil
+}
+
+func (s c39Store) newModel(path string) (Model, error) {
 	// generated documents: the model is the generator's own description, not what pdfcpu reads
 	if b, err := os.ReadFile(path); err == nil {
 		for _, d := range s.Docs() {
@@ -250,6 +311,27 @@ func (s c39Store) NewModel(path string) (Model, error) {
 	}
 	return s.observe(path)
 }
+
+// Equivalent: documents with destinations/outlines of their own are not observed through bookmarks.
+func (c39Store) Equivalent(obs, want string) bool {
+	if !strings.Contains(want, " bm=[") {
+		if i := strings.Index(obs, " bm=["); i >= 0 {
+			return obs[:i] == want
+		}
+	}
+	return false
+}
+
+func (c39Store) Families() []string { return []string{"att", "bm"} }
+func (c39Store) Family(op string) string {
+	if strings.HasPrefix(op, "bm-") {
+		return "bm"
+	}
+	return "att"
+}
+
+var c39Titles = []string{"Chapter", "Chapter", "Chapter 1", "Chapter 10", "Chapter 2", "Appendix", "appendix", "Ünïcode Çhapter", "目次", "A", "AA", "AAA", "B", "Z", "Intro", "Intro", "Summary", "zz top", "(paren)", "a/b#c"}
+
 func (s c39Store) Observe(path string) (string, error) {
 	m, err := s.observe(path)
 	if err != nil {
@@ -279,6 +361,23 @@ func (c39Store) Gen(rng *rand.Rand, mm Model, aux string) Step {
 	}
 	sort.Strings(free)
 	for {
+		if !m.NoBM && rng.IntN(5) == 0 {
+			// the Dests name tree: bookmarks whose titles become its keys (duplicates, prefixes, any order)
+			if len(m.BM) > 0 && rng.IntN(4) == 0 {
+				return Step{Op: "bm-remove"}
+			}
+			n := 1 + rng.IntN(12)
+			var bb []bmEntry
+			page := 1
+			for i := 0; i < n; i++ {
+				if page == 1 && rng.IntN(3) == 0 {
+					page = 2
+				}
+				bb = append(bb, bmEntry{Title: c39Titles[rng.IntN(len(c39Titles))], Page: page})
+			}
+			b, _ := json.Marshal(struct{ BM []bmEntry }{bb})
+			return Step{Op: "bm-set", Args: b, NoFault: true}
+		}
 		switch r := rng.IntN(10); {
 		case r == 0 && len(present) > 0 && rng.IntN(2) == 0:
 			// duplicate key: the largest, the smallest or any present name is inserted again
@@ -355,6 +454,16 @@ func (c39Store) Exec(s Step, path, aux string) error {
 	var a c35Args
 	json.Unmarshal(s.Args, &a)
 	switch s.Op {
+	case "bm-set":
+		var bb []bmEntry
+		json.Unmarshal(s.Args, &struct{ BM *[]bmEntry }{&bb})
+		var bms []pdfcpu.Bookmark
+		for _, b := range bb {
+			bms = append(bms, pdfcpu.Bookmark{Title: b.Title, PageFrom: b.Page})
+		}
+		return api.AddBookmarksFile(path, "", bms, true, dsConf())
+	case "bm-remove":
+		return api.RemoveBookmarksFile(path, "", dsConf())
 	case "att-add":
 		var files []string
 		for _, n := range a.List {
@@ -561,10 +670,57 @@ func (c39Store) Structural(path string, mm Model) error {
 			return fmt.Errorf("raw tree key %d is %q, the sorted map has %q", i, got[i], want[i])
 		}
 	}
-	// bystander tree
+	// the Dests tree
 	d, err := walkTree(path, "Dests")
 	if err != nil {
-		return fmt.Errorf("bystander: %w", err)
+		return fmt.Errorf("Dests: %w", err)
+	}
+	if !m.NoBM {
+		// every bookmark title is a key; a title that occurs k times accounts for at most k keys, the
+		// additional ones derived from it (title + suffix); nothing else is in the tree
+		var keys []string
+		if d != nil {
+			keys = d.keys
+		}
+		count := map[string]int{}
+		for _, b := range m.BM {
+			count[b.Title]++
+		}
+		have := map[string]bool{}
+		for _, k := range keys {
+			have[k] = true
+		}
+		for t := range count {
+			if !have[t] {
+				return fmt.Errorf("Dests name tree has no key for bookmark title %q (keys %q)", t, keys)
+			}
+		}
+		if len(keys) > len(m.BM) {
+			return fmt.Errorf("Dests name tree holds %d keys %q for %d bookmarks", len(keys), keys, len(m.BM))
+		}
+		used := map[string]int{}
+		for _, k := range keys {
+			if _, ok := count[k]; ok {
+				used[k]++
+				continue
+			}
+			owner := ""
+			for t, c := range count {
+				if c > 1 && strings.HasPrefix(k, t) && len(t) > len(owner) {
+					owner = t
+				}
+			}
+			if owner == "" {
+				return fmt.Errorf("Dests name tree holds key %q, which no bookmark title accounts for (titles %v)", k, count)
+			}
+			used[owner]++
+		}
+		for t, u := range used {
+			if u > count[t] {
+				return fmt.Errorf("Dests name tree holds %d keys for title %q, which occurs %d times", u, t, count[t])
+			}
+		}
+		return nil
 	}
 	if d != nil {
 		h := sha256.Sum256([]byte(strings.Join(d.keys, "\x00")))
@@ -580,6 +736,6 @@ func (c39Store) Structural(path string, mm Model) error {
 
 func init() {
 	core.Register(histProp{id: "C39", store: c39Store{}, maxLen: 60, quickN: 12, quickDocs: 4, thoroughN: 300,
-		rule: "seeded histories of up to 60 attachment add/remove steps (1-3 names per step; random, ascending and descending runs, common-prefix, case-variant and non-ASCII names; removals from the left edge, right edge and random; removals of absent names; remove-all; re-insertion of the largest, smallest or a random present key) through the in-place file API, starting from a document without a name tree, from a prebuilt 3-4 level EmbeddedFiles tree, from three-level trees with fan-out 3 to 5 and 1 to 3 names per leaf written by an independent generator (the shape another producer may write; their names are removed and names sorting between them are inserted), and from a document that also has a Dests name tree. After every successful step the re-read file is walked raw: keys strictly ascending in byte order and unique, every non-root node's Limits equal to [min,max] of the keys below it, root without Limits, no node with both or neither of Kids/Names, no dangling value or kid reference, key set equal to the model's sorted map, bystander Dests tree unchanged; listing and extracted bytes equal the model. Half of the batches inject faults/crashes like C35. Distinct by (document, step sequence); non-trivial when a step succeeded.",
+		rule:        "seeded histories of up to 60 attachment add/remove steps (1-3 names per step; random, ascending and descending runs, common-prefix, case-variant and non-ASCII names; removals from the left edge, right edge and random; removals of absent names; remove-all; re-insertion of the largest, smallest or a random present key) through the in-place file API, starting from a document without a name tree, from a prebuilt 3-4 level EmbeddedFiles tree, from three-level trees with fan-out 3 to 5 and 1 to 3 names per leaf written by an independent generator (the shape another producer may write; their names are removed and names sorting between them are inserted), and from a document that also has a Dests name tree. Between the attachment steps the **Dests** name tree is edited through bookmarks: bm-set replaces all bookmarks by 1-12 new ones whose titles (duplicates, common prefixes, case variants, non-ASCII) become keys of the tree - pdfcpu removes the old keys one by one and inserts the new ones - and bm-remove drops them. After every successful step the re-read file is walked raw (both trees): keys strictly ascending in byte order and unique, every non-root node's Limits equal to [min,max] of the keys below it, root without Limits, no node with both or neither of Kids/Names, no dangling value or kid reference, key set equal to the model's sorted map, bystander Dests tree unchanged; listing and extracted bytes equal the model. Half of the batches inject faults/crashes like C35. Distinct by (document, step sequence); non-trivial when a step succeeded.",
 		assumptions: []string{"keys are compared in byte order of the stored strings; only names whose stored form is their UTF-8 file name are used", "inserting a present key: a sorted map replaces the value (here by the same bytes), pdfcpu keeps the entry and stores the new one under a derived key (name + suffix); both outcomes are accepted, everything else (uniqueness, order, limits, all other keys) is checked as usual; such steps carry no injected fault"}})
 }
